@@ -630,6 +630,15 @@ pub fn run(ctx: &Ctx) -> Report {
                 judge_general(st, ty, class, m, n, delta, &dname, &map, &x);
             }
         }
+        // long shapes ("for every m and n" does not stop at 6): one unit in eight also drives an exact affine map of
+        // shape (7..24) x (7..24), tall and wide alike
+        if u % 8 == 3 {
+            let (m, n) = (rng.usize(7, 24), rng.usize(7, 24));
+            for ty in [Ty::R, Ty::C] {
+                for k in [KMIN, 11, 19, KMAX] { let (a, class) = gen_affine(rng, ty, m, n); judge_affine_exact(st, ty, class, &a, k); }
+            }
+            st.count("long-shape-units(7..24)");
+        }
     });
     let mut rep = Report::new(stats,
         "cases: every shape (m,n) in [1,6]^2 x {f64 via Mat64::jacobian, Cmplx via jacobian_cmplx}; per shape and type (i) affine maps x->Mx+c with dyadic M (q/2^s, |q|<=64, s<=3; dense / sparse / small-integer / signed-selection patterns; plus a wide-row class: entries q/2^s with |q|<=3, s<=6 next to offsets c_i of up to 2^(52-k-s), where the exact increment M_ij*delta is as small as one ulp of f_i), dyadic c and points k/16 in [-4,4]^n (Gaussian-dyadic in the complex case) for EVERY step delta=2^-k, k=4..26, plus a seed-independent sweep (index-coded M with all entries distinct at 4 fixed points x all k); (ii) for every delta in {2^-4..2^-26, 1e-8} a random map built from terms {const, a*x_p, a*x_p*x_q, a*x_p^2*x_q, a*sin(w.x+b), a*exp(w.x+b), a/(8+x_p), a/(1+x_p^2) (real only)} (class smooth, 1-3 terms per component) or a general-coefficient affine map (class affine-general) at general / dyadic / special points in [-4,4]^n. The closure logs all call points and returned values. A case is non-trivial when the analytic Jacobian has a nonzero entry; distinct = distinct (type, class, m, n, delta, map data, point) hashes");
